@@ -259,6 +259,12 @@ def run_unit(tpl, scratch, tier, keep):
         if msg.startswith('aborting due to'):
             continue
         cls = classify(msg)
+        # spans that point into vstd (or any file other than the generated unit) must not be mapped to unit lines
+        def own(s):
+            fnm = s.get('file_name') or ''
+            return (not fnm) or os.path.basename(fnm) == os.path.basename(gen)
+        d = dict(d, spans=[s for s in d.get('spans', []) if own(s)],
+                 children=[dict(ch, spans=[s for s in ch.get('spans', []) if own(s)]) for ch in d.get('children', [])])
         spans = [s for s in d.get('spans', []) if s.get('is_primary')] or d.get('spans', [])
         line = spans[0]['line_start'] if spans else None
         tag = unit.tags[line - 1] if line and 0 < line <= len(unit.tags) else None
